@@ -62,9 +62,14 @@ class Run(object):
 
     frozen = False
 
+    max_events = 3000
+
     def log(self, **kw):
         if not self.frozen:
             self.ev.append(kw)
+            if len(self.ev) > self.max_events:
+                self.frozen = True
+                raise Livelock()     # the code under test keeps producing events without ever finishing
 
     def _freeze(self):
         self.frozen = True
@@ -158,7 +163,7 @@ class Run(object):
 
     def fire(self, e):
         k = e[0]
-        if k in ('stop', 'setc') and not self.ev:
+        if k in ('stop', 'setc') and self.p._producer_task is None:
             return    # process() has not started yet: not "while running" (DESIGN 7)
         if k == 'setc' and e[1] == self.p.concurrency:
             return    # no change: not an event
